@@ -18,11 +18,16 @@ R = Registry(
         "append/remove event kinds its builtin effect requires (directly or through an instrumented "
         "sibling), passes the event's return value to the underlying call, fires append/remove events "
         "before the mutation (pop family: pre-remove hook before, remove event after); in-place "
-        "operators agree with their named sibling and return self."
+        "operators agree with their named sibling and return self; the item handed to every remove event "
+        "is selected by the same selector the underlying call receives (every member only for an "
+        "argument-less call or under a guard on start, stop and step), events after the call carry the "
+        "returned item; pop-style wrappers skip the remove event only under a test decided before the "
+        "call (never returned-item-vs-argument, never membership in the mutated collection)."
     ),
     not_decided=(
         "index/slice arithmetic of list.__setitem__/__delitem__ (value level), the conditions under which "
-        "an event is skipped, return values and exceptions versus the builtin, custom collection classes."
+        "a pre-mutation event is skipped (`if key in self`, `existing is not None`), return values and "
+        "exceptions versus the builtin, custom collection classes."
     ),
 )
 
@@ -636,10 +641,17 @@ def _names_read(e):
 def r5(ctx):
     facs = _interfaces(ctx)
     helpers = _event_helpers(ctx)
+    effects = load("python_mutator_effects.json")
     for t in TYPES:
         fac = facs[t]
         decs = _decorators(ctx, fac)
-        for mname in sorted(decs):
+        # builtins that hand back the member they removed: the wrapper only learns the item from the call
+        popstyle = {m for m in effects["returns_value"][t] if effects[t].get(m) in ("remove", "both")}
+        for mname in sorted(popstyle | set(decs)):
+            if mname not in decs:
+                ctx.ok(f"{fac.key}.{mname}:remove-decision",
+                       "no wrapper to examine (missing decorator is reported by C38-R1)", nontrivial=False)
+                continue
             d, w, fnparam = decs[mname]
             g = ctx.cfg(w)
             ev, under = _wrapper_calls(g, helpers, fnparam)
